@@ -5,6 +5,7 @@ From Coq Require Import List Bool String Relations ZArith.
 From HI Require Import Model.Tracker Model.Conv Proofs.Tracker Proofs.IncSync Proofs.Conv.
 From HI Require Import Model.ConvDB Proofs.ConvSort Proofs.ConvHist_base Proofs.ConvHist_keys Proofs.ConvHist_sim
                        Proofs.ConvBack Proofs.ConvHist Proofs.ConvDB_base Proofs.ConvDB Proofs.ConvDB_hist Proofs.ConvDB_multi.
+From HI Require Import Model.ConvAnn Proofs.ConvAnn Proofs.ConvAnn_hist Proofs.ConvAnn_back Proofs.ConvAnn_step Proofs.ConvAnn_multi.
 Import ListNotations.
 
 (* 1. QueryLinks(changed, remove) on a symmetric tracker returns exactly the references
@@ -252,3 +253,99 @@ Proof.
   exact (proj2 (proj2 db_history_eval)).
 Qed.
 Print Assumptions C01_default_backend_under_H_example.
+
+(* ================================================================== *)
+(* 8. Annotations (Model/ConvAnn.v = Model/Conv.v + the annotation mappers of addHost /     *)
+(*    addBackendWithClass and the updaters run on the objects created by a sync)            *)
+(* ================================================================== *)
+
+(* 8a. ConvAnn is conservative, whatever the annotations: the Conv.v part of its state is the
+       state of Conv.v after the same full / partial sync.  So every theorem of
+       Properties/C01_model.v holds of the hosts, paths, servers and certificates of ConvAnn
+       (two of them restated). *)
+Theorem C01_convann_conservative :
+  (forall w, fst (sync_full_a w) = sync_full (aw_base w)) /\
+  (forall w' x A b, option_map fst (sync_partial_a w' (x, A) b) = sync_partial (aw_base w') x b).
+Proof. exact (conj sync_full_a_fst sync_partial_a_fst). Qed.
+Print Assumptions C01_convann_conservative.
+
+Theorem C01_convann_history_general : forall (w0 : aworld) (h : list (batch * aworld)),
+  hist_ok_g (aw_base w0) (base_hist h) ->
+  exists y', run_hist_a (sync_full_a w0) h = Some y' /\
+             hosts_eq (fst (fst y')) (fst (fst (sync_full_a (last_aw w0 h)))).
+Proof. exact history_general_a. Qed.
+Print Assumptions C01_convann_history_general.
+
+Theorem C01_convann_history_obs : forall (w0 : aworld) (h : list (batch * aworld)),
+  hist_ok_o (aw_base w0) (base_hist h) -> back_det (aw_base (last_aw w0 h)) ->
+  exists y', run_hist_a (sync_full_a w0) h = Some y' /\
+             forall hn, obs_host (fst (fst y')) hn = obs_host (fst (fst (sync_full_a (last_aw w0 h)))) hn.
+Proof. exact history_obs_a. Qed.
+Print Assumptions C01_convann_history_obs.
+
+(* 8b. Host-scoped keys, full strength: for every cluster and every history of well formed
+       batches (several events per object; annotation-only updates: ann_ing_ok = an ingress
+       whose annotations changed got an event) that name the changed Services, Endpoints and
+       Secrets, every host ends with the declarations a full sync gives it. *)
+Theorem C01_annotations_history_host_keys : forall (w0 : aworld) (h : list (batch * aworld)),
+  hist_ok_ah w0 h ->
+  exists y', run_hist_a (sync_full_a w0) h = Some y' /\
+             forall hn, obs_hkeys y' hn = obs_hkeys (sync_full_a (last_aw w0 h)) hn.
+Proof. exact model_history_a_hostkeys. Qed.
+Print Assumptions C01_annotations_history_host_keys.
+
+(* 8c. Backend-scoped keys: C01_annotations_history is FALSE of the faithful model, and of the
+       code (finding C01/unskipped-path-acquires-untracked-backend, replayed on the real
+       pipeline by the harness).  ns1/ing0 owns a.example /; ns1/ing1 redeclares it towards
+       svc1 with backend annotations and is skipped; ns1/ing2 uses svc1 on b.example.  ing0 is
+       deleted: ing1 is re-converted and acquires the existing backend, whose mapper of this
+       sync is never applied (partialSyncAnnotations only updates the backends it created).
+       The batch is a plain single-event batch. *)
+Theorem C01_annotations_history_refuted :
+  batch_ok (aw_base af_w0) (aw_base af_w1) af_b1 /\
+  obs_a (run_hist_a (sync_full_a af_w0) [(af_b1, af_w1)]) "a.example"
+    = Some (Some ([], [("/", Prefix, [], None)])) /\
+  obs_a (Some (sync_full_a (last_aw af_w0 [(af_b1, af_w1)]))) "a.example"
+    = Some (Some ([], [("/", Prefix, af_ann, Some af_ann)])) /\
+  ~ H_ann (aw_base af_w0).
+Proof. exact (conj (proj1 annotations_refuted) (conj (proj1 (proj2 annotations_refuted))
+               (conj (proj2 (proj2 annotations_refuted)) finding_not_H_ann))). Qed.
+Print Assumptions C01_annotations_history_refuted.
+
+(* 8d. Under H the whole observation obs_ann (host-scoped keys of every host; per path the
+       backend-scoped declarations of its backend and those of its path link) is the one of a
+       full sync.  H = H_ann, required of every cluster of the history:
+         no_redecl  no (host, path, match type) is declared twice (no path is ever skipped as
+                    redeclared: excludes the finding, and more -- the exact condition is that
+                    no re-converted ingress acquires a backend that the partial sync kept);
+         ports_ok   every path names its service port (true of every Ingress path);
+         ids_inj    two Services never share a backend id (ns_name_port).
+       Other premises: batch_wf, batch_links_ok_e, ann_ing_ok, ann_svc_ok (a Service whose
+       annotations changed is in changed.Links). *)
+Theorem C01_annotations_history_under_H : forall (w0 : aworld) (h : list (batch * aworld)),
+  H_ann (aw_base w0) -> hist_ok_ab w0 h ->
+  exists y', run_hist_a (sync_full_a w0) h = Some y' /\
+             forall hn, obs_ann y' hn = obs_ann (sync_full_a (last_aw w0 h)) hn.
+Proof. exact model_history_a_obs. Qed.
+Print Assumptions C01_annotations_history_under_H.
+
+Theorem C01_annotations_step_under_H : forall (w w' : aworld) (y : ast) (b : batch),
+  InvAB w y -> batch_wf (aw_base w) (aw_base w') b -> batch_links_ok_e (aw_base w) (aw_base w') b ->
+  ann_ing_ok w w' b -> ann_svc_ok w w' b -> H_ann (aw_base w') ->
+  exists y', sync_partial_a w' y b = Some y' /\ InvAB w' y'.
+Proof. exact model_partial_step_a_obs. Qed.
+Print Assumptions C01_annotations_step_under_H.
+
+(* the premises are satisfiable: an annotation-only update, a change of the annotations of a
+   Service (precedence over the ingresses), a deletion *)
+Theorem C01_annotations_under_H_example :
+  H_ann (aw_base xa_w0) /\ hist_ok_ab xa_w0 xa_hist /\
+  obs_a (run_hist_a (sync_full_a xa_w0) xa_hist) "b.example"
+    = Some (Some ([], [("/", Prefix, [("hsts-max-age", "200"); ("balance-algorithm", "leastconn")],
+                        Some [("hsts-max-age", "200"); ("balance-algorithm", "leastconn")])])) /\
+  obs_a (run_hist_a (sync_full_a xa_w0) xa_hist) "b.example" = obs_a (Some (sync_full_a xa_w3)) "b.example".
+Proof.
+  refine (conj (proj1 ann_history_ok) (conj (proj2 ann_history_ok) _)).
+  exact (proj2 ann_history_eval).
+Qed.
+Print Assumptions C01_annotations_under_H_example.
